@@ -600,6 +600,26 @@ theorem blind_witness :
   ⟨envW false, stateW (some 0) 1, envW_wf false, fun _ _ => rfl, stateW_uniform false _ _, rfl, rfl, rfl, rfl,
    by decide, by decide, by decide, by decide, by decide, by decide⟩
 
+def envF : Env := { envW true with foreignFins := true }
+def stateF : State Nat := { stateW (some 0) 1 with marked := true }
+
+/-- C03-N4 (open). "No progress records remain" and "last-handled = essence" are FALSE as well for an object
+    that is marked for deletion, NOT held by the framework's own finalizer (no mandatory deletion handler) and
+    kept alive by somebody else's finalizer: the cause is FREE, the framework leaves the object alone; the
+    record of the handler that was retrying and the outdated last-handled state stay for as long as the
+    object does. All hypotheses of `terminates` hold; the object matches handlers (`prematch`). -/
+theorem free_witness :
+    WF envF ∧ AllFinal envF ∧ Uniform envF stateF ∧ envF.prematch = true ∧
+      stateF.pending = true ∧ stateF.gone = false ∧ stateF.marked = true ∧ stateF.blocked = false ∧
+      "u0" ∈ envF.owned ∧
+      (iter envF 1 stateF).pending = false ∧ (iter envF 1 stateF).gone = false ∧
+      (iter envF 1 stateF).base ≠ some stateF.ess ∧ (iter envF 1 stateF).writes = stateF.writes ∧
+      (iter envF 1 stateF).P "u0" = stateF.P "u0" ∧ (stateF.P "u0").isSome = true := by
+  refine ⟨?_, fun _ _ => rfl, ?_, rfl, rfl, rfl, rfl, rfl, by decide, by decide, by decide, by decide, by decide,
+    by decide, by decide⟩
+  · exact ⟨(envW_wf true).1, by decide, by decide, by decide⟩
+  · exact stateW_uniform true (some 0) 1
+
 /-- two update handlers, all at once; `u2` fails temporarily on its first attempt -/
 def envA : Env :=
   { owned := ["u1", "u2"], subs := [], sel := fun c => if c.reason = .update then ["u1", "u2"] else [],
